@@ -19,6 +19,9 @@ MODS = {
     "syntax": "def task_s(:\n    pass\n",
     "cycle": "from pathlib import Path\nP = Path(__file__).parent\ndef task_1(depends_on=P / 'y.txt', produces=P / 'x.txt'):\n    pass\n"
              "def task_2(depends_on=P / 'x.txt', produces=P / 'y.txt'):\n    pass\n",
+    "gen": "from pathlib import Path\nfrom pytask import task\n@task(is_generator=True)\ndef task_gen():\n    @task\n    def child(produces=Path(__file__).parent / 'c.txt'):\n        produces.write_text('c')\n",
+    "genfail": "from pathlib import Path\nfrom pytask import task\n@task(is_generator=True)\ndef task_gen():\n    @task\n    def child(produces=Path(__file__).parent / 'c.txt'):\n        produces.write_text('c')\n    raise RuntimeError('after registering a task')\n",
+    "empty": None,
     "decorated": "from pathlib import Path\nfrom pytask import task\n@task\ndef make(produces=Path(__file__).parent / 'd.txt'):\n    produces.write_text('d')\n",
 }
 
@@ -48,7 +51,8 @@ def one_build(proj, spec):
     kw = dict(spec.get("kwargs", {}))
     buf = io.StringIO()
     s = pytask.build(paths=[Path(proj) / spec["kind"]], **kw)
-    return {"exit": int(s.exit_code), "outcomes": sorted((r.task.name.split("::")[-1], r.outcome.name) for r in getattr(s, "execution_reports", []))}
+    return {"exit": int(s.exit_code), "ntasks": len([t for t in getattr(s, "tasks", []) if not t.name.split("::")[-1].startswith("child")]),
+            "outcomes": sorted((r.task.name.split("::")[-1], r.outcome.name) for r in getattr(s, "execution_reports", []))}
 
 
 def prepare(proj, kind):
@@ -57,7 +61,8 @@ def prepare(proj, kind):
     if not d.exists():
         d.mkdir(parents=True)
         (d / "pyproject.toml").write_text("[tool.pytask.ini_options]\n")
-        (d / f"task_{kind}.py").write_text(MODS[kind])
+        if MODS[kind] is not None:
+            (d / f"task_{kind}.py").write_text(MODS[kind])
 
 
 def inproc(seq, proj):
